@@ -179,6 +179,9 @@ def main(run, pid):
         traceback.print_exc()
         print('[%s] MACHINERY FAILURE (harness exception)' % pid, flush=True)
         rc = 2
+        if any(v[1] for v in ctx.violations):
+            ctx.note('harness exception after violations')
+            rc = ctx.finish()
     finally:
         if not os.environ.get('VERIF_KEEP_WORK'):
             shutil.rmtree(ctx.work, ignore_errors=True)
